@@ -678,6 +678,7 @@ func Spec() *explore.Spec {
 	return &explore.Spec{
 		ID: "C01",
 		Families: []*explore.Family{
+			{Name: "encoder-histories", ShardDepth: 2, Body: encoderHistories, Doc: "one Encoder reconfigured and reused: every history of up to 3 (thorough 4) calls of SetEscapeHTML(false / true) and SetIndent (3 settings), 6 values (HTML-sensitive keys and strings, maps, RawMessages with white space, a failing Marshaler) encoded after every call: error presence and bytes equal an encoding/json Encoder taken through the same history"},
 			{Name: "deep-shared", ShardDepth: 2, Body: deepShared, Doc: "6 values that share memory without being cyclic (a slice holding a shorter view of itself, a struct whose slice views its own array, the same map / pointer / slice reached twice) under 0, 998..1001, 1100 levels of []any / map / pointer nesting: same bytes and errors as encoding/json"},
 			{Name: "typed", ShardDepth: 1, Body: typed, Doc: "type shapes to depth 2 (40 leaves incl. 14 method-bearing ones, 18 hand-written embedding/tag/recursion structs, maps of 10 key kinds, 1/31/32/33/40-field structs; wrappers: pointer, pointer-to-pointer, slice, arrays of 0/1/2, maps, single- and two-field structs x 10 tag forms) x boundary values x {by value, by pointer} x {Marshal, Append, MarshalIndent x 2, Encoder x escapeHTML x indent}"},
 			{Name: "string-sweep", Body: stringSweep, Doc: "every (length 0..40/72, position, byte value 0..255) single deviation from a plain string and special runes at every position x escapeHTML on/off x Escape/AppendEscape"},
